@@ -191,6 +191,7 @@ def model_search(chk):
     or the correspondence broke and no trace violated the property yet)."""
     R = "(ubtc:uusd,20000.5)"
     R2 = "(ubtc:uusd,20000.50)"
+    RN = "(ubtc:uusd,20000.500000000000000000)"
 
     def pv(h, f, v, salt="1", rates=R, hfor=None, mode="honest"):
         return {"kind": "prevote", "h": h, "feeder": f, "val": v, "hash_for": v if hfor is None else hfor,
@@ -210,6 +211,8 @@ def model_search(chk):
         out.append({"vp0": vp, "nvals": 3, "ops": [pv(base, 0, 0), vt(base + vp, 0, 0), vt(base + vp, 0, 0)]})  # replay
         out.append({"vp0": vp, "nvals": 3, "ops": [pv(base, 0, 0), vt(base + vp, 0, 0, salt="2")]})      # wrong salt
         out.append({"vp0": vp, "nvals": 3, "ops": [pv(base, 0, 0), vt(base + vp, 0, 0, rates=R2)]})      # other text
+        out.append({"vp0": vp, "nvals": 3, "ops": [pv(base, 0, 0, rates=RN), vt(base + vp, 0, 0, rates=R)]})  # committed to the normalised spelling
+        out.append({"vp0": vp, "nvals": 3, "ops": [pv(base, 0, 0, rates=R), vt(base + vp, 0, 0, rates=RN)]})
         out.append({"vp0": vp, "nvals": 3, "ops": [pv(base, 0, 0), pv(base, 1, 1, hfor=0), vt(base + vp, 0, 0), vt(base + vp, 1, 1)]})  # copy-cat
         out.append({"vp0": vp, "nvals": 3, "ops": [pv(base, 0, 0, mode="noval"), vt(base + vp, 0, 0)]})
         out.append({"vp0": vp, "nvals": 3, "ops": [pv(base, 5, 0), pv(base, 0, 0), vt(base + vp, 5, 0)]})  # stranger
